@@ -6,12 +6,12 @@ from .common import log
 
 # Which variant of the three repaired functions the faithful model follows (must mirror /repo):
 #   restore_on_none by content (fix F1), skip_until cut at end() (fix F3), RepeatMinMax re-tests MIN (fix F7)
-MODEL_FLAGS = (1, 0, 1)
+MODEL_FLAGS = (1, 1, 1)
 
 _cache = {}
 
 
-def core_run(tier, profile="debug", forms=("str",)):
+def core_run(tier, profile="debug", forms=("str", "sub")):
     key = (tier, profile, forms)
     if key not in _cache:
         envs = catalogue.catalogue(tier)
